@@ -30,6 +30,7 @@ import (
 	"verif/harness/core"
 	"verif/harness/lds"
 	"verif/harness/link"
+	"verif/harness/sim"
 	"verif/harness/pki"
 )
 
@@ -936,6 +937,7 @@ func C12(c *core.Ctx) {
 	c12Evidence(c, x, lives)
 	// ---- hostile chips ----
 	c12HostileChip(c)
+	c12AuthenticatedHostileChip(c)
 	// ---- signatures whose scalars lie between the orders of sibling curves (the curve fall-back of cms) ----
 	c12SiblingCurves(c)
 	if len(jobs) > 0 {
@@ -1513,4 +1515,102 @@ func recordMutants(b []byte, op string) [][]byte {
 		}
 	}
 	return out
+}
+
+// c12AuthenticatedHostileChip: "for all chip response sequences" includes the responses of a counterpart that HOLDS
+// the session keys (a hostile chip after BAC / PACE, or whoever wrote an evidence bundle): every malformed arrangement
+// of the response data objects under a VALID MAC at the expected counter must be refused by DoAPDU without a panic.
+func c12AuthenticatedHostileChip(c *core.Ctx) {
+	blocks := func(n int, rnd *rand.Rand) []byte { b := make([]byte, n); rnd.Read(b); return b }
+	type shape struct {
+		name string
+		dos  func(bs int, rnd *rand.Rand) []byte
+	}
+	sw99 := []byte{0x99, 0x02, 0x90, 0x00}
+	cat := func(p ...[]byte) []byte { return bytes.Join(p, nil) }
+	shapes := []shape{
+		{"do87-indicator-only", func(bs int, r *rand.Rand) []byte { return cat([]byte{0x87, 0x01, 0x01}, sw99) }},
+		{"do87-empty", func(bs int, r *rand.Rand) []byte { return cat([]byte{0x87, 0x00}, sw99) }},
+		{"do87-wrong-indicator", func(bs int, r *rand.Rand) []byte {
+			return cat([]byte{0x87, byte(bs + 1), 0x02}, blocks(bs, r), sw99)
+		}},
+		{"do87-random-block", func(bs int, r *rand.Rand) []byte {
+			return cat([]byte{0x87, byte(bs + 1), 0x01}, blocks(bs, r), sw99)
+		}},
+		{"do87-partial-block", func(bs int, r *rand.Rand) []byte { return cat([]byte{0x87, 0x06, 0x01}, blocks(5, r), sw99) }},
+		{"do87-one-octet-cryptogram", func(bs int, r *rand.Rand) []byte { return cat([]byte{0x87, 0x02, 0x01, 0x80}, sw99) }},
+		{"do85-empty", func(bs int, r *rand.Rand) []byte { return cat([]byte{0x85, 0x00}, sw99) }},
+		{"do85-one-octet", func(bs int, r *rand.Rand) []byte { return cat([]byte{0x85, 0x01, 0x01}, sw99) }},
+		{"do85-random-block", func(bs int, r *rand.Rand) []byte { return cat([]byte{0x85, byte(bs)}, blocks(bs, r), sw99) }},
+		{"do99-empty", func(bs int, r *rand.Rand) []byte { return []byte{0x99, 0x00} }},
+		{"do99-one-octet", func(bs int, r *rand.Rand) []byte { return []byte{0x99, 0x01, 0x90} }},
+		{"do99-three-octets", func(bs int, r *rand.Rand) []byte { return []byte{0x99, 0x03, 0x90, 0x00, 0x00} }},
+		{"no-do99", func(bs int, r *rand.Rand) []byte { return cat([]byte{0x87, byte(bs + 1), 0x01}, blocks(bs, r)) }},
+		{"nothing-but-mac", func(bs int, r *rand.Rand) []byte { return []byte{} }},
+		{"do87-twice", func(bs int, r *rand.Rand) []byte {
+			return cat([]byte{0x87, 0x01, 0x01}, []byte{0x87, 0x01, 0x01}, sw99)
+		}},
+		{"do87-long-form-zero", func(bs int, r *rand.Rand) []byte { return cat([]byte{0x87, 0x81, 0x00}, sw99) }},
+		{"do87-indefinite", func(bs int, r *rand.Rand) []byte { return cat([]byte{0x87, 0x80, 0x01, 0x00, 0x00}, sw99) }},
+		{"do87-huge", func(bs int, r *rand.Rand) []byte {
+			return cat([]byte{0x87, 0x83, 0x01, 0x00, 0x01, 0x01}, blocks(65536, r), sw99)
+		}},
+		{"unknown-objects", func(bs int, r *rand.Rand) []byte { return cat([]byte{0x80, 0x00, 0x9F, 0x7F, 0x00}, sw99) }},
+		{"do99-then-do87", func(bs int, r *rand.Rand) []byte { return cat(sw99, []byte{0x87, 0x01, 0x01}) }},
+	}
+	type job struct {
+		su sim.Suite
+		sh shape
+	}
+	var jobs []job
+	for _, su := range sim.Suites {
+		for _, sh := range shapes {
+			jobs = append(jobs, job{su, sh})
+		}
+	}
+	outs := make([]hostileOutcome, len(jobs))
+	delivered := make([]bool, len(jobs))
+	core.ParallelFor(len(jobs), func(i int) {
+		j := jobs[i]
+		rnd := rand.New(rand.NewSource(c.Seed + 1000 + int64(i)))
+		outs[i] = runHostile(func() error {
+			chip, err := chipsim.New(chipsim.Config{MfFiles: map[uint16][]byte{0x011C: {0x31, 0x00}}, Transport: chipsim.Transport{ExtendedLength: true}, Rand: rnd})
+			if err != nil {
+				return nil
+			}
+			s := sim.NewPlain(chip)
+			if err := s.InstallSM(j.su, rnd, nil); err != nil {
+				return nil
+			}
+			s.Link.Script = func(idx int, cmd []byte, l *link.Link) link.Action {
+				return link.Action{Name: j.sh.name, Respond: func(g []byte, l *link.Link) []byte {
+					tr := chip.Truth()
+					bs := 8
+					if j.su.Cipher == "AES" {
+						bs = 16
+					}
+					out, err := chipsim.AuthenticateRaw(j.su.Cipher, tr.SM.KSmac, sscAdd(s.SM.SSC(), 1), j.sh.dos(bs, rnd), 0x9000)
+					if err != nil {
+						return g
+					}
+					return out
+				}}
+			}
+			ra, err := s.Nfc.DoAPDU(iso7816.NewCApdu(0, 0xB0, 0, 0, nil, 256), "x")
+			if err == nil && ra != nil && len(ra.Data) > 0 {
+				delivered[i] = true
+			}
+			return err
+		})
+	})
+	for i, j := range jobs {
+		c.Case(fmt.Sprintf("authenticated-hostile-chip/%s/%s", j.su.Name, j.sh.name), true)
+		o := outs[i]
+		if o.kind == "panic" || o.kind == "timeout" {
+			c.Violation("C12:"+o.kind+":NfcSession.DoAPDU:"+panicSite(o.text), fmt.Sprintf("DoAPDU: %s on an authenticated response with %s (%s): %s", o.kind, j.sh.name, j.su.Name, firstLine(o.text)), map[string]any{"shape": j.sh.name, "suite": j.su.Name})
+		} else if o.dur > 20*time.Second {
+			c.Violation("C12:slow:NfcSession.DoAPDU", fmt.Sprintf("DoAPDU took %s on an authenticated response with %s (%s)", o.dur, j.sh.name, j.su.Name), map[string]any{"shape": j.sh.name, "suite": j.su.Name})
+		}
+	}
+	c.Extra["authenticated_hostile_responses"] = len(jobs)
 }
